@@ -18,7 +18,7 @@ def J(test, quick, thorough, shards=1, **kw):
 def GF(test, seconds, procs=8, **kw):
     """Native Go fuzzing of the property behind <test> (thorough tier only; `seconds` wall clock, not pinned to VERIF_SEED)."""
     d = dict(test="gofuzz:" + test, fuzz_test=test, quick=0, thorough=seconds, shards=1, kind="gofuzz", procs=procs, tiers=("thorough",),
-             timeout_thorough=seconds + 900)
+             timeout_thorough=seconds + 1800)
     d.update(kw)
     return d
 
@@ -431,8 +431,8 @@ def custom_setup(repo, verif, work, goenv, log):
 
 def custom_replay(pid, path, repo, verif, work, goenv, log):
     base = _os.path.basename(path)
-    if base.startswith("artefact-gofuzz-"):
-        test = base[len("artefact-gofuzz-"):].rsplit("-", 1)[0]
+    if "artefact-gofuzz-" in base:
+        test = base[base.index("artefact-gofuzz-") + len("artefact-gofuzz-"):].rsplit("-", 1)[0]
         plain = _os.path.join(work, "bin", "props-plain-%s.test" % ("repo" if repo == "/repo" else __import__("hashlib").sha1(repo.encode()).hexdigest()[:8]))
         return gofuzz.replay(path, test, repo, verif, work, goenv, log, plain)
     if pid in CFUZZ_TARGETS and "artefact-" in _os.path.basename(path):
